@@ -154,7 +154,21 @@ pub fn run(toks: &[&str], out: &mut String) {
             let data = std::fs::read(toks[1]).expect("input file");
             let r = ChunkedReader::new(data, parse_list(toks[2]), parse_opt(toks[3])).with_kind(parse_kind(toks[3]));
             let threads = NonZeroUsize::new(toks[4].parse().unwrap()).unwrap();
-            let g = match GenotypeBuilder::default().set_threads(threads).verif_build_from_reader(r) {
+            // optional: what the caller says about the stream instead of leaving it to detection ("bgzf" / "plain": the
+            // compression; "vcf" / "bcf": the format; "bgzf+vcf" etc.: both)
+            let mut b = GenotypeBuilder::default().set_threads(threads);
+            if let Some(preset) = toks.get(5) {
+                for p in preset.split('+') {
+                    b = match p {
+                        "bgzf" => b.set_compression_method(Some(sfs_core::input::genotype::reader::builder::CompressionMethod::Bgzf)),
+                        "plain" => b.set_compression_method(None),
+                        "vcf" => b.set_format(sfs_core::input::genotype::reader::builder::Format::Vcf),
+                        "bcf" => b.set_format(sfs_core::input::genotype::reader::builder::Format::Bcf),
+                        _ => b,
+                    };
+                }
+            }
+            let g = match b.verif_build_from_reader(r) {
                 Ok(g) => g,
                 Err(_) => return out.push_str("ERR:build"),
             };
